@@ -447,6 +447,13 @@ class Schema(dict, metaclass=LogicalMeta):
         args = () if unprovided(default) else (default,)
         return super().pop(field.name, *args)
 
+    def setdefault(self, key: str, default=None):
+        if key in self:
+            return self[key]
+        # assign through __setitem__, so the value is parsed like any other assignment
+        self.__setitem__(key, default)
+        return self.get(key, default)
+
     def update(self, __m=None, **kwargs):
         if self.__options__.immutable:
             raise exc.UpdateError(
